@@ -20,7 +20,7 @@ CONSTANTS
   V5Flt = {"AES256", "Identity"}
   Pairs <- PairsFull
   Attempts <- AttemptsFull
-  MaxDepth = 7
+  MaxDepth = 6
   Emit = TRUE
   KnownTags <- AllKnown
 INVARIANTS OnlyKnown JudgeTracks EmitInv
